@@ -222,10 +222,13 @@ def _run_duration(task):
     n_total = sum(c // (100 * dt) for c in reqs_cs)
     tick = 1 if all(c % 100 == 0 for c in reqs_cs) else 100     # unit of the requests in the trace
     out = {"id": task["id"], "startSec": start.second, "dt": dt, "via": via, "start": task["start"], "tick": tick,
-           "reqs": reqs, "ev": [], "rows": [], "crash": None, "counts": []}
+           "reqs": reqs, "ev": [], "rows": [], "table": [], "crash": None, "counts": []}
     try:
         cfg = su.base_config(start=start, step=dt, n_steps=max(1, n_total + 1), n_targets=1,
                              n_sensors=task.get("sensors", 1), truth_only=True, model="two_body")
+        if task.get("span"):        # a configured time span that is not a whole multiple of the step
+            cfg["time"]["stop_timestamp"] = su.iso(start + timedelta(seconds=task["span"]))
+        out["span"] = (su.parse_iso(cfg["time"]["stop_timestamp"]) - start).total_seconds() if not task.get("span") else task["span"]
         app = su.build(cfg)
         tgt_id = next(iter(app.target_agents))
         real_step = app.stepForward
@@ -266,6 +269,9 @@ def _run_duration(task):
         epochs = {float(e.julian_date): e.timestampISO for e in db.getData(Query(Epoch))}
         rows = db.getData(Query(TruthEphemeris).filter(TruthEphemeris.agent_id == tgt_id))
         out["rows"] = [[float(r.julian_date), epochs.get(float(r.julian_date))] for r in rows]
+        from sqlalchemy import text
+        with db.engine.connect() as conn:       # the table of epochs as it is, read with plain SQL
+            out["table"] = [[float(jd), iso] for jd, iso in conn.execute(text("SELECT julian_date, timestampISO FROM epochs"))]
     except Exception as ex:  # noqa: BLE001   (the simulator failed on a valid public configuration)
         import traceback
         out["crash"] = f"{type(ex).__name__}: {ex}"
@@ -294,7 +300,13 @@ def _project_run(r, idx):
         t = datetime.fromisoformat(iso)
         offs.append(cal.ms_between(t, start))
         ok &= idx.jd_ok(jd, t)
-    return {"startSec": r["startSec"], "dt": r["dt"], "tick": r["tick"], "ev": ev, "rows": sorted(offs), "epochRowsOk": ok}
+    toffs, tok = [], 1
+    for jd, iso in r["table"]:
+        t = datetime.fromisoformat(iso)
+        toffs.append(cal.ms_between(t, start))
+        tok &= idx.jd_ok(jd, t)
+    return {"startSec": r["startSec"], "dt": r["dt"], "tick": r["tick"], "ev": ev, "rows": sorted(offs), "epochRowsOk": ok,
+            "span": int(round(r["span"] * r["tick"], 6)), "table": sorted(toffs), "tableJdOk": tok}
 
 
 def _dispatch(task):
@@ -312,6 +324,8 @@ def _in_seconds(lattice):
         r["reqs"] = [c // 100 if c % 100 == 0 else c / 100 for c in r["reqsCs"]]
         r["dt"] = r["dt"] // tk
         r["epochs"] = [e // tk for e in r["epochs"]]
+        if "span" in r:
+            r["span"] = r["span"] / tk
     return lattice
 
 
@@ -442,13 +456,14 @@ def _duration_tasks(chosen, starts, rng):
         for via in ("api", "cli"):
             tasks.append({"kind": "duration", "id": len(tasks), "start": cal.fmt(t0), "dt": r["dt"],
                           "reqs": list(r["reqs"]), "via": via, "sensors": 1 + j % 2, "boundary": kind,
-                          "expect_counts": list(r["counts"]), "expect_epochs": list(r["epochs"])})
+                          "span": r.get("span"), "expect_counts": list(r["counts"]), "expect_epochs": list(r["epochs"])})
     return tasks
 
 
 SIG_OF_INV = {"EndAllowed": "propagateTo-steps-lost", "StepAllowed": "propagateTo-extra-step",
               "BeginAllowed": "propagateTo-trace-malformed", "ClockAgrees": "clock-not-start-plus-k-dt",
-              "RowsAgree": "recorded-epochs-not-start-plus-k-dt", "StepsHonoured": "propagateTo-steps-not-floor",
+              "RowsAgree": "recorded-epochs-not-start-plus-k-dt",
+              "TableAgrees": "epochs-table-not-start-plus-k-dt", "StepsHonoured": "propagateTo-steps-not-floor",
               "EpochsAreStartPlusKDt": "epochs-not-start-plus-k-dt", "NoOvershoot": "propagateTo-overshoot",
               "StopsOnlyWhenNoStepFits": "propagateTo-steps-lost"}
 
@@ -499,7 +514,7 @@ def _validate_durations(ctx: Ctx, runs, idx, selftest=True):
                                f"steps taken per call {t['counts']} (floor(D/step) = {[int(D // t['dt']) for D in t['reqs']]}), "
                                f"trace rejected by {inv}",
                           {"kind": "duration", "start": t["start"], "dt": t["dt"], "reqs": t["reqs"], "via": t["via"],
-                           "sensors": t.get("sensors", 1), "trace": traces[tid - 1]})
+                           "sensors": t.get("sensors", 1), "span": t.get("span"), "trace": traces[tid - 1]})
     missing = [i for i in range(1, len(traces) + 1) if i not in accepted and i not in rejected]
     if missing:
         raise tlc.MachineryError(f"TraceDurations: traces neither accepted nor rejected: {missing[:10]}\n" + res.stdout[-1500:])
@@ -524,7 +539,14 @@ def _spec_mutant(workdir):
     killed_frac = sorted({v[0] for v in res.invariant_violations})
     if not {"StepsHonoured", "NoOvershoot"} & set(killed_frac):
         raise tlc.MachineryError("DurationsFrac.tla: TargetKeepsFraction does not violate StepsHonoured/NoOvershoot (vacuous spec)")
-    return {"Durations.InvertStartBySecTruncation": killed, "DurationsFrac.TargetKeepsFraction": killed_frac}
+    res = tlc.run_tlc("DurationsFrac", cfg.replace("SpreadEpochsOverSpan = FALSE", "SpreadEpochsOverSpan = TRUE"), workdir,
+                      workers=2, timeout=600)
+    tlc.require_ok(res, "DurationsFrac (epochs of the clock spread over the configured span)")
+    killed_span = sorted({v[0] for v in res.invariant_violations})
+    if "TableIsStartPlusKDt" not in killed_span:
+        raise tlc.MachineryError("DurationsFrac.tla: SpreadEpochsOverSpan does not violate TableIsStartPlusKDt (vacuous spec)")
+    return {"Durations.InvertStartBySecTruncation": killed, "DurationsFrac.TargetKeepsFraction": killed_frac,
+            "DurationsFrac.SpreadEpochsOverSpan": killed_span}
 
 
 def _merge(total, acc):
@@ -562,6 +584,9 @@ def run(ctx: Ctx):
         "julianDateToDatetime must return exactly the whole-second instant (statement of C05)",
         "authoritative instants come from datetime + timedelta; the spec's day number is the proleptic Gregorian ordinal",
         "a duration D < step may be answered by ValueError (0 steps advanced); D >= step must not",
+        "the table of epochs is read with plain SQL; every row must be start + k*step (k = 0..floor(span/step) and the "
+        "steps taken), whatever the configured span; fractional-request runs configure spans of 4 steps + 0 / 1 s / "
+        "step - 1 s / a fraction",
         "requested durations lie on a lattice of hundredths of a second, at least 0.12 s away from a multiple of the step "
         "unless they are whole seconds; the steps demanded are floor(D / step) of the requested D (fraction included)",
         "scenario runs use start dates inside the shipped Earth-orientation table (2014-2022), truth-only two-body, "
@@ -751,7 +776,7 @@ def replay(ctx: Ctx, rp: dict):
                           {"kind": "instant", "count": n, "examples": exs})
         return None
     t = {"kind": "duration", "id": 0, "start": rep["start"], "dt": rep["dt"], "reqs": rep["reqs"],
-         "via": rep["via"], "sensors": rep.get("sensors", 1)}
+         "via": rep["via"], "sensors": rep.get("sensors", 1), "span": rep.get("span")}
     r = _run_duration(t)
     r["sensors"] = t["sensors"]
     ctx.case(("duration", t["start"], t["dt"], tuple(t["reqs"]), t["via"]))
